@@ -6,3 +6,5 @@ open Fzf.Props.C10
 #print axioms C10_offsets
 #print axioms C10_offsets_awk
 #print axioms C10_transform_selects
+#print axioms C10_match_inside_selected_field
+#print axioms C10_no_match_in_any_selected_field
